@@ -1018,6 +1018,10 @@ class APIConnection:
 
     async def disconnect(self) -> None:
         """Disconnect from the API."""
+        # Mark the disconnect as expected right away: if the connection
+        # is lost while we wait below for the connect to finish or for the
+        # disconnect response, it is still a disconnect we asked for
+        self._expected_disconnect = True
         if self._finish_connect_future is not None:
             # Try to wait for the handshake to finish so we can send
             # a disconnect request. If it doesn't finish in time
@@ -1037,7 +1041,6 @@ class APIConnection:
                         self.log_name,
                     )
 
-        self._expected_disconnect = True
         if self._handshake_complete:
             # We still want to send a disconnect request even
             # if the hello phase isn't finished to ensure we
